@@ -20,7 +20,7 @@ ASSUME = ['importlib / sys.modules are modelled as an environment: module name -
 RULE = ('cases = PELs with UD / ED / SRC sections over creators x components x subtypes x versions, fixture parser modules of every behaviour, '
         'plugins on and off; m2c00 requests over subtypes 72/73/84/other x versions 1/2/other x payloads; non-trivial = a parser module '
         'is consulted; distinct by (environment, bytes)')
-UD_FIX = {'x5a5a': ('raises', ''), 'x7e7e': ('text', '{"n\u00e9": ["caf\u00e9 \U0001F600", "\u20ac"]}'), 'x6b6b': ('release_raises', 'done with the view'), 'x6c6c': ('release_none',), 'x1111': ('echo',), 'x2222': ('raises', 'boom'), 'x3333': ('none',), 'x8888': ('import_raises', 'load failure'), 'x0100': ('echo',), 'o0a00': ('echo',), 'y0a00': ('none',), 'y0001': ('echo',), 'o1234': ('echo',)}
+UD_FIX = {'\x801111': ('echo',), '\xff2222': ('raises', 'boom'), 'x5a5a': ('raises', ''), 'x7e7e': ('text', '{"n\u00e9": ["caf\u00e9 \U0001F600", "\u20ac"]}'), 'x6b6b': ('release_raises', 'done with the view'), 'x6c6c': ('release_none',), 'x1111': ('echo',), 'x2222': ('raises', 'boom'), 'x3333': ('none',), 'x8888': ('import_raises', 'load failure'), 'x0100': ('echo',), 'o0a00': ('echo',), 'y0a00': ('none',), 'y0001': ('echo',), 'o1234': ('echo',)}
 SRC_FIX = {'xsrc': ('echo',), 'ysrc': ('raises',), 'zsrc': ('text', 'null'), 'wsrc': ('text', ''), 'o8d00': ('echo',), 'oab00': ('raises_import',), 'bsrc': ('echo',), 'vsrc': ('raises_import',)}
 CO_FIX = {'x': ('table', {'PROC0001': ['line one', 'line "two"'], 'PROC0002': []}), 'y': ('raises',)}
 
@@ -70,7 +70,9 @@ def run(tier, seed):
                             sec = {'kind': k, 'hdr': apel.gen_hdr(rng), 'payload': apel.gen_payload(rng)[:300]}
                             sec['hdr']['comp'] = rng.choice([0x1111, 0x2222, 0x3333, 0x0001, 0x1234, 0x2000, 0x4444, 0x8888, 0x0100, 0x0A00, 0x5A5A, 0x6B6B, 0x6C6C, 0x7E7E])
                             if k == 'ed':
-                                sec.update(creator=ord(rng.choice('xyOZ')), resv1=0, resv2=0)
+                                sec.update(creator=rng.choice([ord(c_) for c_ in 'xyOZ'] + [0x80, 0xFF]), resv1=0, resv2=0)
+                                if sec['creator'] >= 0x80:
+                                    sec['hdr']['comp'] = 0x1111 if sec['creator'] == 0x80 else 0x2222
                         secs.append(sec)
                     p['sections'] = secs
                     apel.fix_real_plugins(p)
